@@ -378,6 +378,25 @@ def run(seed=0, rounds=400):
         check('dict-equality-is-pointwise', (da == db) == (set(da) == set(db) and all(da[k] == db[k] for k in da)), da, db)
     from native import axioms_c13
     axioms_c13.run(rng, check)
+    # C16b: Python orders tuples of ints lexicographically; builtins.max/min return the FIRST extremal element; sorted(key, reverse) is stable
+    for _ in range(rounds):
+        ts = [tuple(int(x) for x in rng.randint(0, 3, size=rng.randint(1, 4))) for _ in range(rng.randint(1, 4))]
+        a, b = ts[0], ts[-1]
+        k = next((j for j in range(min(len(a), len(b))) if a[j] != b[j]), None)
+        spec_gt = (a[k] > b[k]) if k is not None else len(a) > len(b)
+        check('tuple-order-lexicographic', (a > b) == spec_gt, a, b)
+        r = ts[0]
+        for t in ts[1:]:
+            if t > r:
+                r = t
+        check('max-first-maximal', max(ts) is r or (max(ts) == r and ts.index(max(ts)) == ts.index(r)), ts)
+        r = ts[0]
+        for t in ts[1:]:
+            if t < r:
+                r = t
+        check('min-first-minimal', min(ts) == r and ts.index(min(ts)) == ts.index(r), ts)
+        order = sorted(range(len(ts)), key=lambda n: (len(ts[n]), ts[n][-1]), reverse=True)
+        check('sorted-key-reverse', [ts[n] for n in order] == sorted(ts, key=lambda t: (len(t), t[-1]), reverse=True), ts)
     print('AXIOMS ' + json.dumps(dict(rounds=rounds, failures=fails[:5])))
     ok_sets = run_sets(seed)
     ok_ev = evaluable_nodes(seed)
